@@ -95,25 +95,28 @@ def exec_step(world: W.World, step: dict, ctx: seam.Ctx, fault=None, fp=False, e
         ctx.evict_fn = lambda: W.evict_caches(w)
     ctx.force_at = force_at
     env0 = env_state()
+    if fp:
+        # the user's `np.seterr(all="raise")`. Deliberately not a `with np.errstate` block of the harness: its exit
+        # would put back whatever the step leaked and hide it.
+        np.seterr(all="raise")
+        env_fp = env_state()
     ctx.begin()
     try:
-        if fp:
-            with np.errstate(all="raise"):
-                r = op.fn(args, p)
-        else:
-            r = op.fn(args, p)
+        r = op.fn(args, p)
         out.fault_site, out.evict_site = ctx.fault_site, ctx.evicted_site
         out.lines = ctx.end()
         out.value = r
     except seam.StepBudgetExceeded:
         out.lines = ctx.end()
         out.status = "budget"
+        np.seterr(**dict(env0[0]))
         return out
     except BaseException as e:  # noqa: BLE001 -- every exception is an ordinary outcome of a step
         out.fault_site, out.evict_site = ctx.fault_site, ctx.evicted_site
         out.lines = ctx.end()
         if type(e) is MemoryError:
             out.status = "budget"
+            np.seterr(**dict(env0[0]))
             return out
         out.value = e
         out.exc = e
@@ -128,9 +131,11 @@ def exec_step(world: W.World, step: dict, ctx: seam.Ctx, fault=None, fp=False, e
         if ctx.trace_ws:
             out.ws, out.wsk = [], []
     env1 = env_state()
-    if env1 != env0:
+    if env1 != (env_fp if fp else env0):
         out.env_changed = [a for a, b in zip(("np.geterr", "np.get_printoptions", "sys.getrecursionlimit",
-                                              "len(warnings.filters)"), zip(env0, env1)) if b[0] != b[1]]
+                                              "len(warnings.filters)"), zip(env_fp if fp else env0, env1))
+                           if b[0] != b[1]]
+    if env1 != env0:
         np.seterr(**dict(env0[0]))   # put the error state back so that the run can go on
     out.canon = snapshot.canon(out.value)
     if out.fault_site is not None or out.evict_site is not None or (fp and isinstance(out.exc, FloatingPointError)):
